@@ -610,9 +610,9 @@ func c03R5(p *core.Program, r *core.Report) {
 	// (a) inside: each successful Add/Remove is immediately reported by an append to a returned slice
 	{
 		bad := ""
-		res := core.ExplorePaths(reeval, core.PathRules{
-			LoopBound: 2,
-			OnCall: func(s *core.PathState, c ssa.CallInstruction) []core.CallOutcome {
+		var onCallFor func(in *ssa.Function, depth int) func(s *core.PathState, c ssa.CallInstruction) []core.CallOutcome
+		onCallFor = func(in *ssa.Function, depth int) func(s *core.PathState, c ssa.CallInstruction) []core.CallOutcome {
+			return func(s *core.PathState, c ssa.CallInstruction) []core.CallOutcome {
 				cc := c.Common()
 				if b, ok := cc.Value.(*ssa.Builtin); ok && b.Name() == "append" {
 					return []core.CallOutcome{{Effects: []core.Effect{{Kind: "APPEND", Instr: c}}}}
@@ -622,6 +622,16 @@ func c03R5(p *core.Program, r *core.Report) {
 					return nil
 				}
 				mn := core.ObjName(o)
+				// a helper of the package that changes membership on behalf of this method (the if/else moved out of the loop):
+				// its paths are enumerated with the same rules; each distinct combination of effects and returned flags is one
+				// outcome of the call (the flags of a multi-valued result are delivered to its Extracts by c03TupleVals)
+				if _, isMut := c03Mutators[mn]; !isMut {
+					if g := cc.StaticCallee(); g != nil && g.Blocks != nil && depth < 2 && g != in && core.FuncPkgPath(g) == core.FuncPkgPath(reeval) && c03CallsMutator(g, 2) {
+						if outs := c03HelperOutcomes(g, nil, c, onCallFor(g, depth+1)); outs != nil {
+							return outs
+						}
+					}
+				}
 				if mn == "flows.GroupList.Add" || mn == "flows.GroupList.Remove" {
 					return []core.CallOutcome{{Result: core.True, Effects: []core.Effect{{Kind: "MUT", Instr: c, Data: mn}}}, {Result: core.False}}
 				}
@@ -629,7 +639,12 @@ func c03R5(p *core.Program, r *core.Report) {
 					return []core.CallOutcome{{Effects: []core.Effect{{Kind: "MUT", Instr: c, Data: mn}}}}
 				}
 				return nil
-			},
+			}
+		}
+		res := core.ExplorePaths(reeval, core.PathRules{
+			LoopBound: 2,
+			OnCall:    onCallFor(reeval, 0),
+			OnInstr:   c03TupleVals,
 			OnExit: func(s *core.PathState, ret *ssa.Return, pan *ssa.Panic) {
 				pending := 0
 				for _, e := range s.Effects {
@@ -869,6 +884,143 @@ func c03R5(p *core.Program, r *core.Report) {
 	}
 }
 
+// c03BoundCall is a call made on behalf of a function: directly in it, or inside a helper of its package that it calls
+// (a block a refactoring extracted). The helper's parameters are resolved to the values the function passes for them,
+// so that a rule can ask "which group is added" and "under which condition" in terms of the function's own values.
+type c03BoundCall struct {
+	Site  core.CallSite     // the call itself (in the function or in a helper)
+	Outer ssa.Instruction   // the call in the function through which it is reached (== Site.Instr when direct)
+	Chain []*ssa.Function   // helpers entered
+	Via   []ssa.Instruction // Via[i]: the call that enters Chain[i] (Via[0] == Outer)
+	bind  map[*ssa.Parameter]ssa.Value
+	// Conds: the conditions that control the call — those of Outer in the function and, per helper level, those of the
+	// next call inside the helper — with negations stripped (Taken flipped) and helper parameters resolved
+	Conds []core.CondEdge
+}
+
+// Actual resolves a helper parameter to the value the function passes for it (other values are returned as they are).
+func (b c03BoundCall) Actual(v ssa.Value) ssa.Value {
+	for k := 0; k < 8; k++ {
+		prm, ok := v.(*ssa.Parameter)
+		if !ok {
+			break
+		}
+		a, ok := b.bind[prm]
+		if !ok {
+			break
+		}
+		v = a
+	}
+	return v
+}
+
+func c03BoundCalls(fn *ssa.Function, depth int) []c03BoundCall {
+	var out []c03BoundCall
+	pkg := core.FuncPkgPath(fn)
+	var walk func(f *ssa.Function, outer ssa.Instruction, chain []*ssa.Function, via []ssa.Instruction, bind map[*ssa.Parameter]ssa.Value, conds []core.CondEdge, seen map[*ssa.Function]bool)
+	walk = func(f *ssa.Function, outer ssa.Instruction, chain []*ssa.Function, via []ssa.Instruction, bind map[*ssa.Parameter]ssa.Value, conds []core.CondEdge, seen map[*ssa.Function]bool) {
+		for _, cs := range core.Calls(f, false) {
+			bc := c03BoundCall{Site: cs, Outer: outer, Chain: chain, Via: via, bind: bind}
+			if outer == nil {
+				bc.Outer = cs.Instr
+			}
+			bc.Conds = append([]core.CondEdge{}, conds...)
+			for _, ce := range core.ControllingConds(cs.Instr.Block()) {
+				for k := 0; k < 8; k++ {
+					if un, ok := ce.Cond.(*ssa.UnOp); ok && un.Op == token.NOT {
+						ce.Cond, ce.Taken = un.X, !ce.Taken
+						continue
+					}
+					if a := bc.Actual(ce.Cond); a != ce.Cond {
+						ce.Cond = a
+						continue
+					}
+					break
+				}
+				bc.Conds = append(bc.Conds, ce)
+			}
+			out = append(out, bc)
+			g := cs.Common().StaticCallee()
+			if g == nil || len(g.Blocks) == 0 || len(chain) >= depth || seen[g] || core.FuncPkgPath(g) != pkg || len(cs.Common().Args) != len(g.Params) {
+				continue
+			}
+			nb := map[*ssa.Parameter]ssa.Value{}
+			for k, v := range bind {
+				nb[k] = v
+			}
+			for i, a := range cs.Common().Args {
+				nb[g.Params[i]] = bc.Actual(a)
+			}
+			seen[g] = true
+			walk(g, bc.Outer, append(append([]*ssa.Function{}, chain...), g), append(append([]ssa.Instruction{}, via...), cs.Instr), nb, bc.Conds, seen)
+			delete(seen, g)
+		}
+	}
+	walk(fn, nil, nil, nil, nil, nil, map[*ssa.Function]bool{fn: true})
+	return out
+}
+
+// FlagValues: the values of the function that hold the boolean result of the call — the call itself, or, when it sits
+// in a helper, the result position of the helper's call that every return fills with that result or with false.
+func (b c03BoundCall) FlagValues() []ssa.Value {
+	v, ok := b.Site.Instr.(ssa.Value)
+	if !ok {
+		return nil
+	}
+	cur := map[ssa.Value]bool{v: true}
+	for lvl := len(b.Chain) - 1; lvl >= 0 && len(cur) > 0; lvl-- {
+		h := b.Chain[lvl]
+		via, _ := b.Via[lvl].(ssa.Value)
+		next := map[ssa.Value]bool{}
+		rets := core.Returns(h)
+		for i := 0; via != nil && i < h.Signature.Results().Len(); i++ {
+			carries, only := false, len(rets) > 0
+			for _, ret := range rets {
+				var walk func(x ssa.Value, d int) bool // x is the flag or false on every way into it
+				walk = func(x ssa.Value, d int) bool {
+					if cur[x] {
+						carries = true
+						return true
+					}
+					if c, isC := x.(*ssa.Const); isC && c.Value != nil && c.Value.String() == "false" {
+						return true
+					}
+					if phi, isPhi := x.(*ssa.Phi); isPhi && d < 4 {
+						for _, e := range phi.Edges {
+							if !walk(e, d+1) {
+								return false
+							}
+						}
+						return true
+					}
+					return false
+				}
+				if !walk(ret.Results[i], 0) {
+					only = false
+				}
+			}
+			if !carries || !only {
+				continue
+			}
+			if h.Signature.Results().Len() == 1 {
+				next[via] = true
+			} else if via.Referrers() != nil {
+				for _, ref := range *via.Referrers() {
+					if ex, isEx := ref.(*ssa.Extract); isEx && ex.Index == i {
+						next[ex] = true
+					}
+				}
+			}
+		}
+		cur = next
+	}
+	var out []ssa.Value
+	for x := range cur {
+		out = append(out, x)
+	}
+	return out
+}
+
 // derivesFromExtract: v is (a conversion/phi of) result #idx of call.
 // pkgHelperFollow lets a backward slice continue through calls of functions of the given package (into their arguments):
 // a helper that takes a value and hands back an extended or converted copy is transparent for provenance.
@@ -940,7 +1092,10 @@ func c03ReevalLists(p *core.Program, r *core.Report, fn *ssa.Function) {
 	if len(rets) == 0 {
 		return
 	}
-	for _, cs := range core.Calls(fn, false) {
+	// the Add/Remove may sit in a helper of the package that hands its result back as a flag: the group is then what the
+	// method passes to the helper and the flag is the matching result of the helper's call (c03BoundCalls)
+	for _, bc := range c03BoundCalls(fn, 2) {
+		cs := bc.Site
 		o := core.CalleeObj(cs.Common())
 		mn := core.ObjName(o)
 		if mn != "flows.GroupList.Add" && mn != "flows.GroupList.Remove" {
@@ -950,12 +1105,17 @@ func c03ReevalLists(p *core.Program, r *core.Report, fn *ssa.Function) {
 		if mn == "flows.GroupList.Remove" {
 			want = 1
 		}
-		group := cs.Common().Args[len(cs.Common().Args)-1]
+		group := bc.Actual(cs.Common().Args[len(cs.Common().Args)-1])
 		// find the append in the block on the true edge
-		call := cs.Instr.(*ssa.Call)
 		ok := false
 		detail := "no append of the group on the edge where " + mn + " returned true"
-		for _, ref := range *call.Referrers() {
+		var refs []ssa.Instruction
+		for _, fv := range bc.FlagValues() {
+			if fv.Referrers() != nil {
+				refs = append(refs, *fv.Referrers()...)
+			}
+		}
+		for _, ref := range refs {
 			iff, isIf := ref.(*ssa.If)
 			if !isIf {
 				continue
@@ -1104,6 +1264,12 @@ func c03HelperOutcomes(g *ssa.Function, logP *ssa.Parameter, at ssa.CallInstruct
 					effs = append(effs, e)
 					sig = append(sig, e.Kind+":"+fmt.Sprint(e.Data))
 				case "APPEND":
+					if e.Data == nil {
+						// a rule that does not track which slice grows (R5): the append counts where it happens
+						effs = append(effs, e)
+						sig = append(sig, "APPEND")
+						continue
+					}
 					if retRoot != nil && e.Data == any(retRoot) && atVal != nil {
 						effs = append(effs, core.Effect{Kind: "APPEND", Instr: at, Data: atVal})
 						sig = append(sig, "APPEND:ret")
@@ -1117,6 +1283,16 @@ func c03HelperOutcomes(g *ssa.Function, logP *ssa.Parameter, at ssa.CallInstruct
 					sig = append(sig, "=", fmt.Sprint(v))
 				}
 			}
+			if len(ret.Results) > 1 {
+				// several results (flags): their values on this path travel with the outcome and are given to the Extracts
+				// of the call by c03TupleVals
+				vals := make([]core.AB, len(ret.Results))
+				for i, rv := range ret.Results {
+					vals[i] = s.Val(rv)
+				}
+				out.Effects = append(out.Effects, core.Effect{Kind: "TUPLE", Instr: at, Data: vals})
+				sig = append(sig, "=", fmt.Sprint(vals))
+			}
 			sort.Strings(sig)
 			k := strings.Join(dedup(sig), "|")
 			if !seen[k] {
@@ -1129,6 +1305,40 @@ func c03HelperOutcomes(g *ssa.Function, logP *ssa.Parameter, at ssa.CallInstruct
 		return nil
 	}
 	return outs
+}
+
+// c03TupleVals (PathRules.OnInstr): an Extract of a call that c03HelperOutcomes summarised takes the value the helper
+// returned in that position on the path chosen for the call (the latest TUPLE effect of that call).
+func c03TupleVals(s *core.PathState, in ssa.Instruction) {
+	ex, ok := in.(*ssa.Extract)
+	if !ok {
+		return
+	}
+	for i := len(s.Effects) - 1; i >= 0; i-- {
+		e := s.Effects[i]
+		if e.Kind != "TUPLE" {
+			continue
+		}
+		if v, isVal := e.Instr.(ssa.Value); !isVal || v != ex.Tuple {
+			continue
+		}
+		if vals, ok := e.Data.([]core.AB); ok && ex.Index < len(vals) && vals[ex.Index] != core.Unk {
+			s.Vals[ex] = vals[ex.Index]
+		}
+		return
+	}
+}
+
+// c03CallsMutator: g or a helper of its package it calls (up to depth) calls a contact mutator.
+func c03CallsMutator(g *ssa.Function, depth int) bool {
+	for _, ec := range core.EffectiveCalls(g, depth) {
+		if o := core.CalleeObj(ec.Inner.Common()); o != nil {
+			if _, isMut := c03Mutators[core.ObjName(o)]; isMut {
+				return true
+			}
+		}
+	}
+	return false
 }
 
 // lenFact decides `len(s) > 0`, `len(s) == 0`, `len(s) != 0`, `0 < len(s)` for a local slice that starts empty
@@ -1268,7 +1478,15 @@ func c03R6(p *core.Program, r *core.Report, applies []*ssa.Function) {
 		var resetCall *ssa.Function
 		var field *types.Var
 		rebuilds := false
-		for _, cs := range core.Calls(ap, true) {
+		// the calls made on behalf of the Apply: its own (closures included) and those of the helpers of its package it
+		// calls (the loop body that re-adds the elements, or the reset itself, may have been moved into a method)
+		calls := core.Calls(ap, true)
+		for _, ec := range core.EffectiveCalls(ap, 3) {
+			if len(ec.Chain) > 0 {
+				calls = append(calls, ec.Inner)
+			}
+		}
+		for _, cs := range calls {
 			g := cs.Common().StaticCallee()
 			if g == nil {
 				continue
@@ -1280,7 +1498,7 @@ func c03R6(p *core.Program, r *core.Report, applies []*ssa.Function) {
 		if resetCall == nil {
 			continue
 		}
-		for _, cs := range core.Calls(ap, true) {
+		for _, cs := range calls {
 			if g := cs.Common().StaticCallee(); g != nil && g != resetCall && writers[field][g] {
 				rebuilds = true
 			}
